@@ -173,7 +173,22 @@ pub fn run_one_guided(ctx: &mut Ctx, eq: &mut EqTable, cfg: &BatchConfig, idx: u
             sw.setup_policy[1] = SetupPolicy::Scripted(first_row(idx - FIRST_ROWS));
         }
     }
-    let generated = generate(&mut rng, sw.family);
+    let mut generated = generate(&mut rng, sw.family);
+    // Once in forty starts the move number is one of the very last the counter (a usize) can hold,
+    // 2^64-12 .. 2^64-7.  Such a run is cut to three operations - at most one turn of Silver ends
+    // on the main line, a forced repetition cycle adds at most four more - so that the counter
+    // cannot run over during the run itself, and it never seeds the corpus of rare states.
+    let edge_coin = rng.below(40) == 0;
+    let edge_k = rng.below(6) as u128;
+    if edge_coin {
+        if let Start::Diagram(t) = &generated {
+            if let Some((b, sd, _)) = crate::model::parse_diagram(t) {
+                generated = Start::Diagram(crate::model::diagram(&b, sd, (1u128 << 64) - 7 - edge_k));
+                sw.cap = sw.cap.min(3);
+                ctx.stats.inc("runs.move_number_at_the_edge");
+            }
+        }
+    }
     ctx.stats.inc(if faults { "runs.fault_injecting_config" } else { "runs.fault_free_config" });
     let fam = sw.family;
     let pol = sw.policy;
